@@ -284,7 +284,43 @@ func c16AdminCase(t *testing.T, name string) (res c16Result) {
 			res.Viol = v
 			return
 		}
-		// the keys stay usable: the correct clients continue and converge
+		// the keys stay usable. First for the REST endpoint: a valid patch of the document, and a patch of the key the request
+		// named, are answered at once (a lock that a refused request left behind would make them wait for its lease)
+		if ac.kind == "patch" || ac.kind == "client" {
+			follow := []*model.PatchMessage{{Collection: "col", Key: "k1", Json: `{"after":{"x":1},"l":[1,2]}`}}
+			if ac.kind == "patch" && ac.patch.Collection == "col" && ac.patch.Key != "k1" && ac.patch.Key != "" {
+				follow = append(follow, &model.PatchMessage{Collection: "col", Key: ac.patch.Key, Json: `{"again":true}`})
+			}
+			for i, fm := range follow {
+				var ferr error
+				var fresp *model.PatchMessage
+				f0 := time.Now()
+				if !callWithDeadline(func() {
+					ctx, cancel := gocontext.WithCancel(gocontext.Background())
+					defer cancel()
+					fresp, ferr = m.sys.Svc().PatchDocument(ctx, fm)
+				}) {
+					exitWith(viol("C16:request-never-answered:patch-after:"+name, "a patch of %s/%s after the request %s was never answered", fm.Collection, fm.Key, name))
+				}
+				ftook := time.Since(f0)
+				m.drain()
+				if ftook >= 3*time.Second {
+					res.Viol = viol("C16:answered-only-after-a-lock-lease:patch-after:"+name, "after the request %s a patch of %s/%s was answered only after %v of virtual time (err=%v): the key's patch lock was left behind", name, fm.Collection, fm.Key, ftook, ferr)
+					return
+				}
+				if i == 0 {
+					if ferr != nil {
+						res.Viol = viol("C16:valid-patch-refused-after:"+name, "after the request %s a valid patch of col/k1 is refused: %v", name, ferr)
+						return
+					}
+					if got, ok := canonJSONStr(fresp.Json); !ok || got != canonJSON(fm.Json) {
+						res.Viol = viol("C19:rest-patch-response-differs:after:"+name, "after the request %s the valid patch of col/k1 answered %s", name, clip(fresp.Json, 300))
+						return
+					}
+				}
+			}
+		}
+		// then for the clients: they continue and converge
 		m.oracles["converge"] = true
 		for _, a := range []pt.Action{{Op: "dput", R: 0, K: "c", V: "p", T: "k1|"}, {Op: "inc", R: 1, P: 1, T: "k2|"}} {
 			if v := safeApply(m, a); v != nil {
